@@ -36,7 +36,8 @@ REQUIRED_MONITORS = ["ref-derivative", "mapped-grad", "mapped-div", "mapped-curl
                      "partition-of-unity", "hdiv-flux-dual", "hcurl-circulation-dual", "global-dofs-dual",
                      "layouts-agree"]
 REQUIRED_REACH = ["complex-step", "central-difference", "negative-det-cell", "per-cell-layout", "subset-tind",
-                  "non-affine-cell", "higher-derivative-chain"]
+                  "non-affine-cell", "higher-derivative-chain", "unsorted-triangle-cells",
+                  "global-nodal-on-general-quadrilateral"]
 
 FD = ((1, 4 / 5), (2, -1 / 5), (3, 4 / 105), (4, -1 / 280))
 
@@ -221,6 +222,19 @@ def pick_mesh(ctx, rng, rec, k):
         p[0] = -p[0]
         mesh = type(mesh)(p, np.array(mesh.t))
         geom += "-mirrored"
+    if kind == "tri" and rec.family != "global":
+        # "an arbitrary non-degenerate cell": every local vertex order, kept as given (sort_t=False is what loaded,
+        # oriented and second-order meshes have); the derivative relations are cell-local and hold regardless
+        t = np.array(mesh.t)
+        for c in range(t.shape[1]):
+            if rng.random() < 0.7:
+                t[:, c] = t[rng.permutation(3), c]
+        mesh = type(mesh)(np.array(mesh.p), t, sort_t=False)
+        if not np.array_equal(mesh.t, t):
+            raise Skip("constructor-resorted")
+        if (t[0] > t[1]).any() or (t[1] > t[2]).any():
+            ctx.reached("unsorted-triangle-cells")
+        geom += "-unsorted"
     return mc, mesh, geom
 
 
@@ -444,6 +458,15 @@ def global_dofs(ctx, k):
     rng = ctx.rng()
     mc, mesh, geom = pick_mesh(ctx, rng, rec, 0)
     kind = rec.kind
+    if rec.name == "ElementQuad2G" and (k // len(recs)) % 2 == 1:
+        # point-value functionals are dual to the basis on every cell on which they are unisolvent, not only on
+        # parallelograms: mildly distorted convex quadrilaterals (perturbation < 0.1 on spacing >= 0.5)
+        import skfem
+        p = np.array(mesh.p)
+        p = p + rng.integers(-24, 25, size=p.shape) / 256.0
+        mesh = skfem.MeshQuad1(p, np.array(mesh.t))
+        mc = G.MeshCase(mesh, "quad", 1, {"gen": "quad", "style": "unit-scale-distorted"})
+        ctx.reached("global-nodal-on-general-quadrilateral")
     rd = mesh.elem.refdom
     elem = rec.make()
     mapping = mesh.mapping()
@@ -520,5 +543,5 @@ FAMILIES = [
     Family("nodal-pou", nodal_pou, _n_nodal, lambda c: 8 * _n_nodal(c)),
     Family("mapped-derivatives", mapped_derivatives, _n_mapped, _n_mapped, budget={"quick": 90, "thorough": 900}),
     Family("duality", duality, 14, 560),
-    Family("global-dofs", global_dofs, 11, 330),
+    Family("global-dofs", global_dofs, 22, 330),
 ]
